@@ -80,6 +80,11 @@ CLAIMS = {
         'the ".." filter tests and cleans the DECODED path, also when percent-decoding yields NUL bytes; the Range header parts are only indexed below their count; each turn of the readBody read loop reads 1..sizeof(buffer) bytes and either delivers data or returns.',
    note=TB + 'String/Array/Socket callees are contract stubs: substring precondition (C03), indexOf = first occurrence or -1, contains/replace on the C string (assumed), Socket::read = 1..n bytes or 0/negative after close. NOT decided: header parsing (readHeaders/readLine: Dic and String loops), delivered method/headers/body equal to what was sent, file mapping, keep-alive dispatch loop.',
    technique='CBMC code contracts on extracted code regions with callee contracts as stubs'),
+ 'C10': dict(level='proof', design='6 C10',
+   text='Framing arithmetic only: Socket_::read / Socket_::write (blocking) hand the caller\'s buffer to the OS consecutively, each byte exactly once, never beyond its end, and terminate; '
+        'HttpMessage::write sends a body of any length up to 10^8 in consecutive blocks of 1..128000 bytes covering it exactly once, each framed as hex-size CRLF data CRLF in chunked mode.',
+   note=TB + 'The exchange property as a whole is NOT decided: end-to-end equality of method/headers/status/body over real sockets, keep-alive, many clients in flight (schedules), file bodies with ranges, readBody/readHeaders text parsing. OS read/send are stubs with their POSIX contracts.',
+   technique='CBMC code contracts with loop contracts on extracted bodies, OS calls as contract stubs'),
  'C11': dict(level='proof', design='6 C11',
    text='WebSocket::send frame header proved against an RFC 6455 5.2 specification for EVERY payload length 1..2^31-1, frame type and masking key (7/16/64-bit length forms at exactly 125/126 and 65535/65536, network order). '
         'WebSocket::receive header decoding for ANY bytes from the peer never sizes the buffer with a negative length. Word-wise masking loop = per-octet RFC masking (bounded to 13-byte payloads).',
